@@ -44,7 +44,8 @@ class EqGen:
         if k < .60: return ("inf",)
         if k < .70: return ("bool", R.random() < .5)
         if k < .82: return ("str", R.randrange(-3, 4))
-        if k < .88: return ("nil",)
+        if k < .86: return ("nil",)
+        if k < .93: return ("io", R.choice(["ret", "print", "read", "bind2", "bind3", "bind3b"]), R.randrange(0, 3))
         return ("int", R.randrange(-2, 3))
     def val_t(s, d):
         R = s.R; k = R.random()
@@ -62,6 +63,10 @@ class EqGen:
         if k == "bool": return call("ㅈㅈ" if t[1] else "ㄱㅈ", [])
         if k == "str": return call("ㅁㅈ", [E(t[1])])
         if k == "nil": return call("ㅂㄱ", [])
+        if k == "io":      # action values compare by content: kind + arguments (for ㄱㄹ: the bound action, the continuation AND the handler)
+            n = E(t[2])
+            return {"ret": f"({n} ㄱㅅㅎㄴ)", "print": f"({n} ㅁㅈㅎㄴ ㅈㄹㅎㄴ)", "read": "(ㄹㅎㄱ)", "bind2": f"(({n} ㄱㅅㅎㄴ) ㄱㅅ ㄱㄹㅎㄷ)",
+                    "bind3": f"(({n} ㄱㅅㅎㄴ) ㄱㅅ ㄱㅅ ㄱㄹㅎㄹ)", "bind3b": f"(({n} ㄱㅅㅎㄴ) ㄱㅅ ㅈㄹ ㄱㄹㅎㄹ)"}[t[1]]
         if k == "list": return call("ㅁㄹ", [s.render(x) for x in t[1]])
         if k == "exc": return call("ㄷㅂ", [s.render(x) for x in t[1]])
         return call("ㅅㅈ", [y for kv in t[1] for y in (s.render(kv[0]), s.render(kv[1]))])
@@ -75,6 +80,7 @@ class EqGen:
             if c < .7: return ("float" if k == "int" else "int", n)          # numerically equal across the tower (when exactly representable)
             if c < .85: return (k, n + 1)
             return (k, n * 2**61 if n else 2**61 - 1)
+        if k == "io": return ("io", R.choice(["ret", "print", "read", "bind2", "bind3", "bind3b"]), t[2]) if R.random() < .7 else ("io", t[1], (t[2] + 1) % 3)
         if k in ("list", "exc") and t[1]:
             i = R.randrange(len(t[1])); return (k, [s.perturb(x) if j == i else x for j, x in enumerate(t[1])])
         if k == "dict" and t[1]:
@@ -155,7 +161,8 @@ def c11_tower(r, seed, tier, model_ok):
         if k < .45: return call("ㅂ", ["ㅂ", "ㅅ", R.choice(["ㅁ", "ㄴ"])])
         if k < .65: return call("ㄱ", [num(d - 1) for _ in range(R.randrange(1, 5))])
         if k < .90: return call("ㄷ", [num(d - 1) for _ in range(R.randrange(1, 6))])
-        if k < .95: return call(call("ㅂ", ["ㅂ", "ㅅ", "ㅂㄹ", R.choice("ㄱㄴㄷㄹㅁ")]), [num(d - 1)])
+        if k < .93: return call(call("ㅂ", ["ㅂ", "ㅅ", "ㅂㄹ", R.choice("ㄱㄴㄷㄹㅁ")]), [num(d - 1)])
+        if k < .97: return call(R.choice(["ㄴㄴ", "ㄴㅁ"]), [num(d - 1), num(d - 1)])          # floor-then-truncate division / fmod, any mix of integer and real
         return call("ㅈㅅ", [num(d - 1)])
     def prog():
         k = R.random(); d = R.randrange(1, 5)
@@ -194,6 +201,9 @@ def c11_tower(r, seed, tier, model_ok):
         dl.append(dict(text=call("ㅁㄹ", [call("ㄴㄴ", [ta, td]), call("ㄴㅁ", [ta, td])]), floats=True, trace=False))
         dw.append(f"V [{vlib.canon_float(float(q))}, {vlib.canon_float(float(rem))}]".replace("F-0", "F0"))
     da = impl_run(dl)
+    if model_ok:
+        db = model_run(dl); ddist, dbad = compare(dl, da, db, fields=("res",))
+        r.slice("real_division_vs_model", len(dl), len({c["text"] for c in dl}), [dl[1]["text"]], dict(outcomes=dict(ddist)), "the same ㄴㄴ / ㄴㅁ cases vs the model's transcription of CPython's float_divmod / C fmod (bit-exact)", dbad)
     bad3 = [dict(program=c["text"], impl=res(o).replace("F-0", "F0")[:120], model="quotient truncated toward zero, remainder with the dividend's sign: " + w, which=["real-division-law"]) for c, o, w in zip(dl, da, dw) if res(o).replace("F-0", "F0") != w]
     r.slice("real_division_law", len(dl), len({c["text"] for c in dl}), [dl[0]["text"]], dict(), "ㄴㄴ / ㄴㅁ with at least one real operand on exactly representable dyadic values, all sign combinations, vs exact rational arithmetic", bad3[:40])
     r.slice("order_laws", len(progs), len(set(progs)), [progs[0]], dict(triples=len(fin)), "implementation-only: ㅈ irreflexive, transitive, trichotomous with ㄴ on mixed integer / real operands", bad2[:40])
@@ -412,12 +422,19 @@ def c18_print(r, seed, tier, model_ok):
         cases.append(dict(text=f"({E(v)} ㅁㅈㅎㄴ) ㅈㅅㅎㄴ {E(v)} ㄴㅎㄷ", trace=False, tlimit=10)); want.append("V True"); kinds["int-reread"] += 1
     for _ in range(N(tier, 3000, 60000)):
         m = R.randrange(1, 2**53); e = R.choice([R.randrange(-1074, 971), R.randrange(-60, 10), 0]); s = R.choice([1, -1])
+        c = R.random()
+        if c < .15: m = 2 * R.randrange(2**30, 2**51) + 1; e = -R.randrange(1, 4)              # >= 1e9 with a fractional part
+        elif c < .25: m = 2**52 + R.randrange(1, 2**20); e = -52                                # 1 + a few ulps
+        elif c < .3: m = R.randrange(1, 10**6) * 2**20 + 1; e = -20                             # integer + 2^-20
         if e + m.bit_length() > 1023: continue
         parts = []; ee = e
         while ee != 0:
             st = max(-1000, min(1000, ee)); parts.append(f"(ㄷ ㅅㅅㅎㄴ {E(st)} ㅅㅎㄷ)"); ee -= st
         x = call("ㄱ", [f"({E(s * m)} ㅅㅅㅎㄴ)"] + parts)
         cases.append(dict(text=f"({x} ㅁㅈㅎㄴ) ㅅㅅㅎㄴ {x} ㄴㅎㄷ", trace=False)); want.append("V True"); kinds["float-reread"] += 1
+        # the PRINTED form of the value (what main prints), read back by the host's float(): must be exactly the double that was built
+        cases.append(dict(text=x, trace=False, floats=True)); want.append("V " + vlib.canon_float(float(Fraction(s * m) * Fraction(2) ** e))); kinds["float-print"] += 1
+        if R.random() < .3: cases.append(dict(text=call("ㅁㄹ", [x, call("ㄷㅂ", [x])]), trace=False, floats=True)); want.append("V [{0}, <예외: [{0}]>]".format(vlib.canon_float(float(Fraction(s * m) * Fraction(2) ** e)))); kinds["float-print-nested"] += 1
     # dictionaries: all insertion orders
     KEYS = [E(0), E(1), E(-1), E(10), E(2), "(ㄹ ㅅㅅㅎㄴ)", "(ㅁ ㅅㅅㅎㄴ)", "(ㅈㅈㅎㄱ)", "(ㄱㅈㅎㄱ)", "(ㄴ ㅁㅈㅎㄴ)", "(ㅂㄱㅎㄱ)", "(ㄱ ㄴ ㅁㄹㅎㄷ)", "(ㄴ ㄷㅂㅎㄴ)", "(ㄱㅇㄱ ㅎ)", "(ㄴ ㅎ)", "(ㄱ ㅎ)"]
     groups = []
